@@ -7,6 +7,8 @@ import (
 	"strings"
 	"unicode"
 	"unicode/utf8"
+
+	"github.com/alicebob/sqlittle/internal/ascii"
 )
 
 var (
@@ -116,7 +118,7 @@ func tokenize(s string) ([]token, error) {
 		case unicode.IsLetter(c) || c == '_':
 			bt, bl := readBareword(s[i:])
 			tnr := tBare
-			if n, ok := keywords[strings.ToUpper(bt)]; ok {
+			if n, ok := keywords[ascii.Upper(bt)]; ok {
 				tnr = n
 			}
 			res = append(res, stoken(tnr, bt))
